@@ -1,12 +1,23 @@
 #!/bin/sh
 # Run once after a fresh restore, offline.  Nothing is fetched: checks the tools are present
-# and warms the Go build cache for the harness and the overlaid packages.
+# (by actually parsing a specification with SANY and running TLC on it) and warms the Go build cache.
 set -e
 cd "$(dirname "$0")"
 export GOFLAGS=-mod=mod GOPROXY=off GOSUMDB=off GOTOOLCHAIN=local
-java -cp /opt/veriftools/tla/tla2tools.jar tlc2.TLC -h >/dev/null 2>&1 || { echo "TLC missing"; exit 1; }
-go version >/dev/null
+CP=/opt/veriftools/tla/tla2tools.jar:/opt/veriftools/tla/CommunityModules-deps.jar
+[ -f /opt/veriftools/tla/tla2tools.jar ] || { echo "tla2tools.jar missing"; exit 1; }
+command -v java >/dev/null || { echo "java missing"; exit 1; }
+command -v go >/dev/null || { echo "go missing"; exit 1; }
+command -v python3 >/dev/null || { echo "python3 missing"; exit 1; }
 mkdir -p .work .cache evidence
+# TLC smoke test (note: `tlc2.TLC -h` exits 1 by design, so run a real, tiny model instead)
+T=.work/setup-smoke
+rm -rf "$T"; mkdir -p "$T"
+cp specs/shared/BigNat.tla specs/shared/MCBigNat.tla specs/shared/MCBigNat.cfg "$T"/
+if ! (cd "$T" && timeout 300 java -XX:+UseParallelGC -cp "$CP" tlc2.TLC -metadir md -workers 2 -config MCBigNat.cfg MCBigNat >tlc.out 2>&1); then
+  tail -20 "$T/tlc.out"; echo "TLC smoke test failed"; exit 1
+fi
+rm -rf "$T"
 REPO="${VERIF_REPO:-/repo}"
 (cd "$REPO" && go build ./src/... >/dev/null 2>&1 || true)
 echo "setup ok"
